@@ -671,6 +671,13 @@ def run(rep: Report, ctx: Any) -> str:
     _imports_of_every_property(rep, ctx, cfgs)
     _python_names_compared(rep, ctx, cfgs)
     _composed_schema_stays_whole(rep, ctx, cfgs)
+    from . import determinants
+
+    rep.rule("R15.10", "narrowing keeps the default honest: where the merge of two members copies a property with another class / table of "
+                       "values / value type (the fields its convert_value reads), the default is given anew in the same call and converted "
+                       "again by the narrowed property - an inherited default is not kept as converted for the wider one (shared with C13 R13.9)")
+    rep.floor("copies_that_replace_default_determinants", determinants.check(rep, ctx, "R15.10"), 1)
+    determinants.control(rep, "R15.10")
     return LEVEL
 
 
